@@ -146,6 +146,23 @@ op_task(void *a)
 				nng_msg_free(m);
 			break;
 		}
+		case 8: {
+			// contexts opened (and closed) while the socket may be closing
+			nng_ctx cx;
+			rv = nng_ctx_open(&cx, w->a);
+			if (rv == 0) {
+				if (W(0, 1))
+					sim_yield();
+				int crv;
+				BOUNDED_CALL(crv, nng_ctx_close(cx));
+				(void) crv;
+				if (issued_after_close)
+					VIOL("closed_handle_usable", "nng_ctx_open succeeded after nng_socket_close returned");
+				rv = NNG_ETIMEDOUT; // not a message operation: keep looping
+				sim_sleep_ns((uint64_t) W(0, 300) * 1000);
+			}
+			break;
+		}
 		case 6: {
 			// blocking dial to an address that never answers
 			Bounded g("C10", "op_pending_forever", 120ull * 1000000000ull, "nng_dial to a black-holed address (closing=%d)",
@@ -322,7 +339,10 @@ close_run(Params *p)
 		bool want_send = w.pp->a_send && (!w.pp->a_recv || W(0, 1) == 0);
 		bool use_ctx   = w.pp->a_ctx && W(0, 1) == 0;
 		bool use_aio   = !use_ctx && W(0, 2) == 0;
-		if (W(0, 7) == 0) {
+		if (w.pp->a_ctx && W(0, 9) == 0) {
+			o->kind = 8;
+			sim_probe("c10_ctx_open_loop");
+		} else if (W(0, 7) == 0) {
 			// a pending dial instead of a message operation
 			o->kind = W(0, 1) ? 6 : 7;
 			if (!have_hole2) {
